@@ -36,14 +36,15 @@ type gate struct {
 }
 
 type barInfo struct {
-	name    string
-	bar     *mpb.Bar
-	failed  bool // Add returned an error
-	added   bool // Add returned
-	fills   int
-	exts    int
-	op      *Op
-	created bool
+	name      string
+	bar       *mpb.Bar
+	failed    bool // Add returned an error
+	added     bool // Add returned
+	fills     int
+	exts      int
+	op        *Op
+	created   bool
+	lateFills int // Fill calls since the done channel was closed (for a fault "at the k-th final frame")
 }
 
 type run struct {
@@ -65,6 +66,9 @@ type run struct {
 
 	p        *mpb.Progress
 	cancel   context.CancelFunc
+	wcProto  map[string]*decor.WC
+	closing  bool // some Wait / Shutdown has passed its barrier and is cancelling the container
+	lsDone   bool // the refresh listener has passed its last gate and closes the done channel
 	manual   chan interface{}
 	delay    chan struct{}
 	notif    chan interface{}
@@ -155,6 +159,8 @@ func (r *run) label(point string, args []interface{}) string {
 			return "hm:req:push:" + b
 		}
 		return "hm:req:" + cmd
+	case "us:listen":
+		return "us:listen:" + args[0].(string)
 	case "ct:hm":
 		return "ct:hm:" + cmdNames[args[0].(int)]
 	case "ct:push":
@@ -229,9 +235,22 @@ func (r *run) hook(point string, args ...interface{}) {
 	r.mu.Unlock()
 	<-g.rel
 	if strings.HasPrefix(label, "pw:cancel") {
+		r.mu.Lock()
+		r.closing = true
+		r.mu.Unlock()
 		// Wait or Shutdown is about to cancel the container: calls still in flight may
 		// from now on take their "container is done" branch
 		r.rec(Event{"ev": "closing"})
+	}
+	if label == "ls:done" {
+		// the listener is about to close the container's done channel: what is drawn from now on are the final frames
+		r.mu.Lock()
+		r.lsDone = true
+		r.mu.Unlock()
+	}
+	if label == "ls:tick" {
+		// the refresh listener is about to hand a render request to the container
+		r.rec(Event{"ev": "tickfwd"})
 	}
 	if label == "ct:hm:sync" {
 		// a render cycle begins: every Add that returned before this point is in the
@@ -311,6 +330,21 @@ func (d *probeDecor) Format(s string) (string, int) {
 	return str, w
 }
 
+func (r *run) isDoneClosed() bool {
+	r.mu.Lock()
+	defer r.mu.Unlock()
+	return r.lsDone
+}
+
+// userGate parks user code (a callback the library runs in a goroutine of its own) like a library gate, so that
+// the scheduler decides when it returns; in free-running mode it does nothing.
+func (r *run) userGate(point, name string) {
+	if r.free {
+		return
+	}
+	r.hook(point, name)
+}
+
 // user code takes its time: in free-running mode a listener is notified "slowly"
 func (d *probeDecor) slow() {
 	if d.r.free {
@@ -322,6 +356,7 @@ type listenDecor struct{ *probeDecor }
 
 func (d listenDecor) OnShutdown() {
 	d.slow()
+	d.r.userGate("us:listen", d.name)
 	d.r.rec(Event{"ev": "onshutdown", "d": d.name, "b": d.bar})
 }
 
@@ -335,6 +370,7 @@ type listenEwmaDecor struct{ *probeDecor }
 
 func (d listenEwmaDecor) OnShutdown() {
 	d.slow()
+	d.r.userGate("us:listen", d.name)
 	d.r.rec(Event{"ev": "onshutdown", "d": d.name, "b": d.bar})
 }
 func (d listenEwmaDecor) EwmaUpdate(n int64, dur time.Duration) {
@@ -365,17 +401,29 @@ func (w customWrap) Unwrap() decor.Decorator { return w.Decorator }
 
 func (r *run) mkDecor(bar, side string, idx, col int, spec DecorSpec) decor.Decorator {
 	p := &probeDecor{r: r, name: fmt.Sprintf("%s%s%d", bar, side, idx), bar: bar, side: side, idx: idx, spec: spec, col: col}
-	p.WC = decor.WC{W: spec.W}
-	if spec.Sync {
-		p.WC.C |= decor.DSyncWidth
+	// the documented idiom for custom decorators: one WC variable per kind of column, `proto.Init()` for each
+	// decorator built from it (every Init call gives the decorator a width channel of its own)
+	key := fmt.Sprintf("%d/%v/%v/%v", spec.W, spec.Sync, spec.Space, spec.Right)
+	r.mu.Lock()
+	if r.wcProto == nil {
+		r.wcProto = map[string]*decor.WC{}
 	}
-	if spec.Space {
-		p.WC.C |= decor.DextraSpace
+	proto := r.wcProto[key]
+	if proto == nil {
+		proto = &decor.WC{W: spec.W}
+		if spec.Sync {
+			proto.C |= decor.DSyncWidth
+		}
+		if spec.Space {
+			proto.C |= decor.DextraSpace
+		}
+		if spec.Right {
+			proto.C |= decor.DindentRight
+		}
+		r.wcProto[key] = proto
 	}
-	if spec.Right {
-		p.WC.C |= decor.DindentRight
-	}
-	p.WC.Init()
+	p.WC = proto.Init()
+	r.mu.Unlock()
 	if ch, ok := p.Sync(); ok {
 		r.mu.Lock()
 		r.chanName[ch] = p.name
@@ -398,6 +446,14 @@ func (r *run) mkDecor(bar, side string, idx, col int, spec DecorSpec) decor.Deco
 			d = decor.OnComplete(d, "("+p.name+"!C)")
 		case "onabort":
 			d = decor.OnAbort(d, "("+p.name+"!A)")
+		case "either":
+			d = decor.OnCompleteOrOnAbort(d, "("+p.name+"!E)")
+		case "oncompletemeta":
+			d = decor.OnCompleteMeta(d, func(s string) string { return "\x1b[33m" + s + "\x1b[0m" })
+		case "onabortmeta":
+			d = decor.OnAbortMeta(d, func(s string) string { return "\x1b[31m" + s + "\x1b[0m" })
+		case "eithermeta":
+			d = decor.OnCompleteMetaOrOnAbortMeta(d, func(s string) string { return "\x1b[35m" + s + "\x1b[0m" })
 		case "meta":
 			d = decor.Meta(d, func(s string) string { return "\x1b[32m" + s + "\x1b[0m" })
 		case "custom":
@@ -424,7 +480,10 @@ func flagsOf(s decor.Statistics) string {
 func (r *run) mkFiller(bi *barInfo) mpb.BarFiller {
 	return mpb.BarFillerFunc(func(w io.Writer, s decor.Statistics) error {
 		bi.fills++
-		if f := bi.op.Fault; f != nil && f.Kind == "fill" && bi.fills == f.At {
+		if f := bi.op.Fault; f != nil && f.At < 0 && r.isDoneClosed() {
+			bi.lateFills++ // Fill calls since the done channel was closed
+		}
+		if f := bi.op.Fault; f != nil && f.Kind == "fill" && (bi.fills == f.At || (f.At < 0 && bi.lateFills == -f.At)) {
 			r.rec(Event{"ev": "fault", "kind": "fill", "b": bi.name, "at": f.At})
 			return errFill
 		}
@@ -567,6 +626,7 @@ func (r *run) exec(c, i int, op *Op) {
 		var syncs [2]int
 		var listens []string
 		ewmas := []string{}
+		wraps := []Event{}
 		var opts []mpb.BarOption
 		var groups [2][]decor.Decorator
 		for si, specs := range [2][]DecorSpec{op.Pre, op.App} {
@@ -583,6 +643,9 @@ func (r *run) exec(c, i int, op *Op) {
 				if sp.Sync {
 					syncs[si]++
 				}
+				if len(sp.Wrap) > 0 {
+					wraps = append(wraps, Event{"d": fmt.Sprintf("%s%s%d", op.B, side, k), "w": sp.Wrap})
+				}
 				if sp.Listen && !sp.Avg {
 					listens = append(listens, fmt.Sprintf("%s%s%d", op.B, side, k))
 				}
@@ -598,6 +661,7 @@ func (r *run) exec(c, i int, op *Op) {
 		}
 		inv["listens"] = listens
 		inv["ewmas"] = ewmas
+		inv["wraps"] = wraps
 		opts = append(opts, mpb.PrependDecorators(groups[0]...), mpb.AppendDecorators(groups[1]...))
 		if op.Rm {
 			opts = append(opts, mpb.BarRemoveOnComplete())
@@ -716,14 +780,30 @@ func (r *run) exec(c, i int, op *Op) {
 		inv["line"] = op.Line
 		ret["line"] = op.Line
 		r.rec(inv)
-		buf := []byte(op.Line + "\n")
-		n, err := r.p.Write(buf)
-		// io.Writer: the callee must not retain the slice; the caller reuses it at once
-		for i := range buf {
-			buf[i] = '#'
+		parts := []string{op.Line + "\n"}
+		if op.Chunks {
+			parts = []string{op.Line, "\n"}
 		}
-		ret["wn"] = n
-		ret["full"] = n == len(op.Line)+1
+		total, full := 0, true
+		var err error
+		ret["partial"] = false
+		for k, part := range parts {
+			buf := []byte(part)
+			var n int
+			n, err = r.p.Write(buf)
+			// io.Writer: the callee must not retain the slice; the caller reuses it at once
+			for i := range buf {
+				buf[i] = '#'
+			}
+			total += n
+			full = full && n == len(part)
+			if err != nil {
+				ret["partial"] = k > 0
+				break
+			}
+		}
+		ret["wn"] = total
+		ret["full"] = full
 		ret["err"] = errName(err)
 	case "wait":
 		r.rec(inv)
@@ -911,6 +991,7 @@ func (r *run) scheduler(t *testing.T) (hang string) {
 	fairFrames := 20 + 8*nb
 	pos := 0
 	fairFrom := -1
+	fairSteps := 0
 	quietTicks := 0
 	var lastLabel string
 	for step := 0; ; step++ {
@@ -938,6 +1019,13 @@ func (r *run) scheduler(t *testing.T) (hang string) {
 		}
 		if mode == "fair" && r.nCycles()-fairFrom > fairFrames {
 			return "livelock"
+		}
+		if mode == "fair" {
+			// time passes and nothing is drawn any more (no render cycle begins): a fair drain that long is a livelock too
+			fairSteps++
+			if fairSteps > 8000+1000*nb {
+				return "livelock"
+			}
 		}
 		if debugSched {
 			fmt.Fprintf(os.Stderr, "step %d mode %s parked %v cands %d frames %d pend %v addsLeft %d\n", step, mode, labels(all), len(cands), r.nFrames(), r.pendingCalls(), r.addsLeft)
@@ -1198,7 +1286,13 @@ func RunScenario(t *testing.T, sc *Scenario) (events []Event, fatal string) {
 			for _, g := range libGoroutines() {
 				leaks = append(leaks, g)
 			}
-			r.rec(Event{"ev": "quiesce", "leaks": leaks, "nleaks": len(leaks), "notified": nvals})
+			allfmt := true // every leaked goroutine is blocked in a width exchange (decor.WC.Format)
+			for _, g := range leaks {
+				if i := strings.Index(g, "]: "); i < 0 || !strings.HasPrefix(g[i+3:], "/decor.WC.Format") {
+					allfmt = false
+				}
+			}
+			r.rec(Event{"ev": "quiesce", "leaks": leaks, "nleaks": len(leaks), "notified": nvals, "allfmt": allfmt})
 			if r.cancel != nil {
 				r.cancel()
 			}
